@@ -926,6 +926,16 @@ class RTCSctpTransport(AsyncIOEventEmitter):
 
         return True
 
+    def _sorted_misordered(self) -> list[int]:
+        """
+        Return the out-of-order TSNs in serial number order.
+        """
+        last_received_tsn = self._last_received_tsn
+        return sorted(
+            self._sack_misordered,
+            key=lambda tsn: (tsn - last_received_tsn) % SCTP_TSN_MODULO,
+        )
+
     def _mark_received(self, tsn: int) -> bool:
         """
         Mark an incoming data TSN as received.
@@ -937,7 +947,7 @@ class RTCSctpTransport(AsyncIOEventEmitter):
 
         # consolidate misordered entries
         self._sack_misordered.add(tsn)
-        for tsn in sorted(self._sack_misordered):
+        for tsn in self._sorted_misordered():
             if tsn == tsn_plus_one(self._last_received_tsn):
                 self._last_received_tsn = tsn
             else:
@@ -1156,7 +1166,7 @@ class RTCSctpTransport(AsyncIOEventEmitter):
         # advance cumulative TSN
         self._last_received_tsn = chunk.cumulative_tsn
         self._sack_misordered = set(filter(is_obsolete, self._sack_misordered))
-        for tsn in sorted(self._sack_misordered):
+        for tsn in self._sorted_misordered():
             if tsn == tsn_plus_one(self._last_received_tsn):
                 self._last_received_tsn = tsn
             else:
@@ -1429,7 +1439,7 @@ class RTCSctpTransport(AsyncIOEventEmitter):
         """
         gaps: list[list[int]] = []
         gap_next = None
-        for tsn in sorted(self._sack_misordered):
+        for tsn in self._sorted_misordered():
             pos = (tsn - self._last_received_tsn) % SCTP_TSN_MODULO
             if pos > 0xFFFF:
                 # gap ack block offsets are 16-bit, this TSN cannot be reported
